@@ -18,7 +18,11 @@
 EXTENDS Integers, Sequences, FiniteSets, TLC, Calendar, Rat, Position
 
 CONSTANTS
-  Assets        \* asset symbols that can be traded / quoted
+  Assets,       \* asset symbols that can be traded / quoted
+  Bug           \* "none" for the specification proper.  Any other value plants ONE seeded defect in the model
+                \* (spec sensitivity): TLC must then report the named property violated, which shows that the
+                \* property is not vacuous on the bounded instances.  Values: "fill-when-closed", "buys-first",
+                \* "sell-commission-not-debited", "fill-at-mid", "refusal-debits", "delete-when-nonpositive"
 
 VARIABLES
   now,          \* broker clock
@@ -126,7 +130,7 @@ SubPfEff(p, a) ==
 WdPfEff(p, a) ==
   IF a < 0 THEN Rej("ValueError")
   ELSE IF ~Known(p) THEN Rej("KeyError")
-  ELSE IF a > cash[p] THEN Rej("ValueError")
+  ELSE IF a > cash[p] THEN (IF Bug = "refusal-debits" THEN [err |-> "ValueError", master |-> master + 250] ELSE Rej("ValueError"))
   ELSE IF now < clk[p] THEN Rej("ValueError")
   ELSE [master |-> master + a,
         cash   |-> [cash EXCEPT ![p] = @ - a],
@@ -164,12 +168,14 @@ Drained == DrainFrom(1)
 
 \* stage 4: stable sort by direction: sells (qty < 0) first; a zero quantity has direction +1
 IsSell(o) == o.qty < 0
-SellsFirst(s) == SelectSeq(s, IsSell) \o SelectSeq(s, LAMBDA o : ~IsSell(o))
+SellsFirst(s) == IF Bug = "buys-first" THEN SelectSeq(s, LAMBDA o : ~IsSell(o)) \o SelectSeq(s, IsSell)
+                 ELSE SelectSeq(s, IsSell) \o SelectSeq(s, LAMBDA o : ~IsSell(o))
 
 \* stage 5: price, consideration and commission of one fill
 SidePrice(a, q) == IF q > 0 THEN quote[a].ask ELSE quote[a].bid
    \* the code tests  order.direction > 0 ; direction of a zero quantity is +1 -> ask
-SidePriceCode(a, q) == IF q >= 0 THEN quote[a].ask ELSE quote[a].bid
+SidePriceCode(a, q) == IF Bug = "fill-at-mid" THEN (quote[a].bid + quote[a].ask) \div 2
+                       ELSE IF q >= 0 THEN quote[a].ask ELSE quote[a].bid
 Consideration(p, q) == RoundHalfEven(p * q, 1000)            \* whole currency units
 FeeOf(f, consid) == IF f.kind = "zero" THEN 0 ELSE (f.c + f.t) * Abs(consid)
 Commission(p, q) == FeeOf(fee, Consideration(p, q))
@@ -188,11 +194,13 @@ ExpectedFills(t) ==
 FillOne(acc, f) ==
   LET p    == f.pid
       cost == f.px * f.qty + f.comm
-      bal  == acc.cash[p] - cost
+      bal  == acc.cash[p] - (IF Bug = "sell-commission-not-debited" /\ f.qty < 0 THEN f.px * f.qty ELSE cost)
   IN  [acc EXCEPT
          !.cash[p]          = bal,
          !.clk[p]           = f.t,
-         !.pos[p]           = TransactPosition(@, f.asset, f.qty, f.px, f.comm, f.t),
+         !.pos[p]           = IF Bug = "delete-when-nonpositive"
+                              THEN TransactPositionWith(@, f.asset, f.qty, f.px, f.comm, f.t, LAMBDA n : n <= 0)
+                              ELSE TransactPosition(@, f.asset, f.qty, f.px, f.comm, f.t),
          !.hist[p]          = Append(@, EvTxn(f.t, f.qty, cost, bal)),
          !.ledger[p].cost   = @ + cost,
          !.net[p][f.asset]  = @ + f.qty,
@@ -217,10 +225,10 @@ UpdateEffWith(t, fills) ==
     IN  [now    |-> t,
          cash   |-> acc.cash, clk |-> acc.clk, pos |-> acc.pos, hist |-> acc.hist,
          ledger |-> acc.ledger, net |-> acc.net, seen |-> acc.seen, done |-> acc.done,
-         queue  |-> IF IsOpen(t) THEN [p \in PSet |-> << >>] ELSE queue,
+         queue  |-> IF IsOpen(t) \/ Bug = "fill-when-closed" THEN [p \in PSet |-> << >>] ELSE queue,
          batch  |-> fills]
 
-UpdateEff(t) == UpdateEffWith(t, IF IsOpen(t) THEN ExpectedFills(t) ELSE << >>)
+UpdateEff(t) == UpdateEffWith(t, IF IsOpen(t) \/ Bug = "fill-when-closed" THEN ExpectedFills(t) ELSE << >>)
 
 -----------------------------------------------------------------------------
 (* Portfolio-level requests made directly on a Portfolio object (C15).     *)
